@@ -79,6 +79,9 @@ type Disk struct {
 	OnRemove func(path string, read func() []byte)
 	// FailWrite, if set, may return an error for a write to path (robustness configurations only).
 	FailWrite func(path string) error
+	// FailOpen, if set, may return an error for an open of path (descriptor table full, disk
+	// full, permission lost); nothing is created in that case.
+	FailOpen func(path string, flag int) error
 }
 
 var D *Disk
@@ -394,6 +397,11 @@ func OpenFile(name string, flag int, perm FileMode) (*File, error) {
 	simrt.YS()
 	d := disk()
 	p := clean(name)
+	if d.FailOpen != nil {
+		if err := d.FailOpen(p, flag); err != nil {
+			return nil, perr("open", name, err)
+		}
+	}
 	n := d.lookup(p)
 	if n == nil {
 		if flag&O_CREATE == 0 {
